@@ -20,7 +20,7 @@ import (
 
 func faultActs() Acts {
 	return Acts{Pegnet: 0, GradingV2: 2, TxConv: 3, PegPricing: 4, OneWayFCT: 6, ConvLimit: 8, PegFloat: 8, RCDE: 12, V4: 12,
-		V20: 16, DevRewards: 144, SprSig: 144, OneWaySmall: 150, V202: 150, V204: 154, V204Burn: 158, PIP10: 400}
+		V20: 16, DevRewards: 144, SprSig: 144, OneWaySmall: 150, V202: 150, V204: 154, V204Burn: 158, PIP10: 20}
 }
 
 func copyFile(src, dst string) error {
@@ -186,10 +186,12 @@ func scenFaults(rep *Report, tier string, seed int64) {
 		return
 	}
 	// blocks of interest
-	targets := []uint32{s.Acts.DevRewards, s.Acts.V202}
+	// (the blocks right after the PIP-10 activation execute conversions priced with the rolling
+	// averages: the in-memory cache is then a consensus input a failed attempt must not disturb)
+	targets := []uint32{s.Acts.DevRewards, s.Acts.V202, s.Acts.PIP10 + 1, s.Acts.PIP10 + 2}
 	pool := []uint32{}
 	for h := uint32(5); h <= tip-2; h++ {
-		if rich(h) && h != s.Acts.DevRewards && h != s.Acts.V202 {
+		if rich(h) && h != s.Acts.DevRewards && h != s.Acts.V202 && h != s.Acts.PIP10+1 && h != s.Acts.PIP10+2 {
 			pool = append(pool, h)
 		}
 	}
